@@ -61,6 +61,8 @@ def conflict_family():
                        'ops': base + list(first) + list(order) + ['in A 2', 'in B 3'] + list(reversed(order)) + ['heal']}
 
 
+# a full transfer after LESS silence than a ping (the constructor takes any pair)
+EAGER_RESYNC = {'period_ping': 12, 'period_resync': 6, 'attempt_stash': 1, 'attempt_ping': 1, 'attempt_resync': 2}
 SMALL_PERIODS = {'period_ping': 4, 'period_resync': 8, 'attempt_stash': 1, 'attempt_ping': 1, 'attempt_resync': 2}
 
 
@@ -146,7 +148,7 @@ def fault_scenario(rng, small=None):
     small = rng.random() < 0.5 if small is None else small
     sc = scenario(rng, faults=True, ticks=True)
     if small:
-        sc['periods'] = dict(SMALL_PERIODS)
+        sc['periods'] = dict(EAGER_RESYNC) if rng.random() < 0.25 else dict(SMALL_PERIODS)
     return sc
 
 
